@@ -866,13 +866,25 @@ func main() {
 	targetsFile := flag.String("targets", "", "targets json")
 	out := flag.String("out", "", "output directory")
 	flag.Parse()
-	raw, err := os.ReadFile(*targetsFile)
+	// -targets names a directory of *.json files (each a list of targets), read in name order
+	var targets []target
+	ents, err := os.ReadDir(*targetsFile)
 	if err != nil {
 		panic(err)
 	}
-	var targets []target
-	if err := json.Unmarshal(raw, &targets); err != nil {
-		panic(err)
+	for _, e := range ents {
+		if !strings.HasSuffix(e.Name(), ".json") {
+			continue
+		}
+		raw, err := os.ReadFile(filepath.Join(*targetsFile, e.Name()))
+		if err != nil {
+			panic(err)
+		}
+		var ts []target
+		if err := json.Unmarshal(raw, &ts); err != nil {
+			panic(fmt.Errorf("%s: %w", e.Name(), err))
+		}
+		targets = append(targets, ts...)
 	}
 	if err := os.Chdir(*repo); err != nil {
 		panic(err)
